@@ -84,7 +84,7 @@ Print Assumptions C02_nonvacuous.
     Class: [conv c] (built command: validity gate, no subcommand_precedence_over_arg, no
     allow_missing_positional, only the last positional multiple, no argument with hyphen/negative-
     number values, require_equals, a terminator, last or trailing_var_arg) and [wf_items c pst pos its]
-    (names resolve by exact key, short names ASCII, the first token of an item is not a subcommand
+    (names resolve by exact key, short names any character but [-] (spelled in UTF-8), the first token of an item is not a subcommand
     name, separate values are value tokens -- not starting with [-], see [C02_value_tokens] -- and at
     most [num_args.max] of them for an option; a positional run does not directly follow an option
     that is still open and is maximal). *)
@@ -154,7 +154,7 @@ Proof. exact value_ok_nodash. Qed.
 Print Assumptions C02_value_tokens.
 
 (** Non-vacuity: a built command satisfying [conv], and an invocation using every item kind and
-    every spelling ([--qu F -vvoAB --opt=== --mu A B,C -vm A -s= R S --yy -v T]) that is well
+    every spelling ([--qu F -vvoAB --opt=== --mu A B,C -vm A -s= R S --yy -v T -é]) that is well
     formed, parses, and reports the expected groups (Append order and boundaries, delimiter split,
     the count 4 for four [v]s in three clusters, the positional runs [R S] and [T] as two
     occurrences of the second positional). *)
@@ -163,13 +163,14 @@ Theorem C02_unparse_nonvacuous :
   no_overrides UnparseEx.c = true /\ wf_items UnparseEx.c PSValuesDone 1 UnparseEx.its = true /\
   render UnparseEx.its =
     [[45; 45; 113; 117]; [70]; [45; 118; 118; 111; 65; 66]; [45; 45; 111; 112; 116; 61; 61; 61];
-     [45; 45; 109; 117]; [65]; [66; 44; 67]; [45; 118; 109]; [65]; [45; 115; 61]; [82]; [83]; [45; 45; 121; 121]; [45; 118]; [84]] /\
+     [45; 45; 109; 117]; [65]; [66; 44; 67]; [45; 118; 109]; [65]; [45; 115; 61]; [82]; [83]; [45; 45; 121; 121]; [45; 118]; [84]; [45; 195; 169]] /\
   exists st, get_matches_with 3 UnparseEx.c (render UnparseEx.its) ps_new = ROk st /\
     groups_of [111] (mt st) = Some [[[65; 66]]; [[61; 61]]] /\
     groups_of [109] (mt st) = Some [[[65]; [66]; [67]]; [[65]]] /\
     groups_of [118] (mt st) = Some [[[52]]] /\
     groups_of [102] (mt st) = Some [[[70]]] /\
-    groups_of [114] (mt st) = Some [[[82]; [83]]; [[84]]].
+    groups_of [114] (mt st) = Some [[[82]; [83]]; [[84]]] /\
+    groups_of [101] (mt st) = Some [[s_true]].
 Proof.
   split; [exact UnparseEx.ex_valid|]. split; [exact UnparseEx.ex_conv|]. split; [exact UnparseEx.ex_no_ignore_errors|].
   split; [exact UnparseEx.ex_no_overrides|]. split; [exact UnparseEx.ex_wf|]. split; [exact UnparseEx.ex_render|].
@@ -323,7 +324,7 @@ Theorem C02_indices_append : forall c os a, conv c = true -> no_overrides c = tr
 Proof. exact denote_idx_append. Qed.
 Print Assumptions C02_indices_append.
 
-(** Non-vacuity: the indices of [--qu F -vvoAB --opt=== --mu A B,C -vm A -s= R S --yy -v T]
+(** Non-vacuity: the indices of [--qu F -vvoAB --opt=== --mu A B,C -vm A -s= R S --yy -v T -é]
     (option names 5, 7, 9, 14, 16, 20 are consumed by [-o], [--opt], [--mu], [-m], [-s], [--yy]). *)
 Theorem C02_indices_nonvacuous :
   denote_idx UnparseEx.c [111] UnparseEx.its = Some [6; 8] /\
@@ -333,7 +334,9 @@ Theorem C02_indices_nonvacuous :
   denote_idx UnparseEx.c [114] UnparseEx.its = Some [18; 19; 23] /\
   UnparseEx.idx_after (render UnparseEx.its) [114] = Some (Some [18; 19; 23]) /\
   denote_idx UnparseEx.c [118] UnparseEx.its = Some [22] /\
-  UnparseEx.idx_after (render UnparseEx.its) [118] = Some (Some [22]).
+  UnparseEx.idx_after (render UnparseEx.its) [118] = Some (Some [22]) /\
+  denote_idx UnparseEx.c [101] UnparseEx.its = Some [24] /\
+  UnparseEx.idx_after (render UnparseEx.its) [101] = Some (Some [24]).
 Proof. exact UnparseEx.ex_idx. Qed.
 Print Assumptions C02_indices_nonvacuous.
 
